@@ -179,7 +179,123 @@ class C08World(WalletWorld):
                 self.w.probe('node_rejected_respend')
 
 
+# ---------------------------------------------------------------------------------------------------------
+# crash sweep: every crash point of one operation, enumerated (thorough tier arm 'crashsweep')
+
+def run_sweep(world):
+    import copy
+    import os
+    import random
+    import shutil
+    from simkit.chooser import Chooser
+    from simkit.providers import CTX
+    sim = C08World(world)
+    world.debug_ns = {'sim': sim}
+    # the sweep arm has no other fault source, so no relaxation can hide an ordinary bug
+    sim.fault_rate = 0
+    sim.db_fail_rate = 0
+    sim.crash_enabled = False
+    while sim.ch.next_op():
+        sim.step()
+    ch = sim.ch
+    ch.tail_block()
+    target = ch.weighted('sweep_target', [('send', 6), ('sweep', 3), ('update', 3), ('delete', 1), ('bumpfee', 1),
+                                          ('new_key', 1), ('utxo_add', 2)])
+    wi = sim.wallets[ch.index('sweep_wallet', len(sim.wallets))]
+    mark = len(ch.blocks[-1])
+
+    snapdir = os.path.join(world.scratch, 'snapshot')
+
+    def snapshot():
+        world.dirty_restart()
+        for x in sim.wallets:
+            x.handles = []
+            x.pending = []
+        shutil.rmtree(snapdir, ignore_errors=True)
+        os.makedirs(snapdir)
+        for f in os.listdir(world.scratch):
+            if f.endswith('.sqlite'):
+                shutil.copyfile(os.path.join(world.scratch, f), os.path.join(snapdir, f))
+        st = {'chain': copy.deepcopy(sim.chain), 'now': world.clock.now, 'rnd': random.getstate(),
+              'ent': world.entropy.counter,
+              'models': [(dict(x.acked_spent), dict(x.sent), set(x.unacked), set(x.seen_txids)) for x in sim.wallets]}
+        try:
+            import numpy
+            st['np'] = numpy.random.get_state()
+        except ImportError:
+            pass
+        return st
+
+    def restore(st):
+        world.dirty_restart()
+        for f in os.listdir(world.scratch):
+            if f.endswith('.sqlite') or f.endswith('-journal') or f.endswith('-wal'):
+                os.remove(os.path.join(world.scratch, f))
+        for f in os.listdir(snapdir):
+            shutil.copyfile(os.path.join(snapdir, f), os.path.join(world.scratch, f))
+        sim.chain = copy.deepcopy(st['chain'])
+        sim.chain.clock = world.clock
+        CTX.chain = sim.chain
+        world.clock.now = st['now']
+        random.setstate(st['rnd'])
+        world.entropy.counter = st['ent']
+        if 'np' in st:
+            import numpy
+            numpy.random.set_state(st['np'])
+        for x, (a, b, c, d) in zip(sim.wallets, st['models']):
+            x.acked_spent, x.sent, x.unacked, x.seen_txids = dict(a), dict(b), set(c), set(d)
+            x.handles = []
+            x.pending = []
+        sim.crash_in = None
+
+    def execute(draws):
+        """Run the target operation with a fixed list of draws (None: draw and record them)."""
+        saved = sim.ch
+        if draws is not None:
+            sim.ch = Chooser(saved.seed, replay=[[], draws])
+            sim.ch.next_op()
+        try:
+            getattr(sim, {'send': 'op_send', 'sweep': 'op_sweep', 'update': 'op_update', 'delete': 'op_delete',
+                          'bumpfee': 'op_bumpfee', 'new_key': 'op_new_key', 'utxo_add': 'op_utxo_add'}[target])(wi)
+        finally:
+            sim.ch = saved
+
+    st = snapshot()
+    c0 = world.commit_points
+    world.op('sweep_reference_execution', target=target, wallet=wi.name)
+    sim.crash_enabled = True          # count only; crash_in stays None
+    execute(None)
+    draws = [d for d in ch.blocks[-1][mark:]]
+    k = world.commit_points - c0
+    # commit points counted by the hook include cache commits; crash points are wallet-database commits (2 phases each)
+    windows = 0
+    n_points = 0
+    for j in range(1, min(2 * k, 80) + 1):
+        restore(st)
+        world.op('sweep_crash', target=target, j=j)
+        sim.crash_in = j
+        n_acc0 = len(sim.chain.accepted_broadcasts)
+        execute(draws)
+        crashed = sim.crash_in is None and world.faults.get('crash', 0) > n_points
+        if sim.crash_in is not None:
+            sim.crash_in = None
+            break                      # the operation has fewer crash points than j
+        n_points += 1
+        if len(sim.chain.accepted_broadcasts) > n_acc0:
+            windows += 1               # broadcast reached the network, the wallet never learned the outcome
+        for x in sim.wallets:
+            sim.check_wallet(x, True)
+    world.info.setdefault('crash_sweeps', []).append({'operation': target, 'wallet_kind': wi.kind, 'witness': wi.wt,
+                                                      'crash_points': n_points, 'exhaustive': True,
+                                                      'broadcast_but_unacknowledged_points': windows})
+    world.info['crash_sweep_points'] = world.info.get('crash_sweep_points', 0) + n_points
+    world.info['crash_window_observations'] = world.info.get('crash_window_observations', 0) + windows
+    world.probe('crash_sweep_done')
+
+
 def run(world):
+    if world.arm_params.get('arm') == 'crashsweep':
+        return run_sweep(world)
     sim = C08World(world)
     world.debug_ns = {'sim': sim}
     while sim.ch.next_op():
